@@ -81,6 +81,36 @@ def replay_hussainy(model):
     return bool(problems), {"what": "; ".join(problems) or "integrand and limits as documented", "inputs": m, "value": val}
 
 
+def replay_hussainy_value(model):
+    """Real pseudopressure_Hussainy against an independent composite quadrature (250-psi panels, adaptive on each) of the
+    library's own 2p/(mu Z): light and heavy gases (where Z dips sharply), intervals up to the top of the default table;
+    and additivity through the pressure_standard argument."""
+    import numpy as np
+    from scipy.integrate import quad as _quad
+    import bluebonnet.fluids.gas as rg
+    problems = []
+    for T_, sg, kind in ((100.0, 1.0, "wet gas"), (300.0, 0.7, "dry gas"), (150.0, 1.15, "wet gas")):
+        Tpc, ppc = rg.pseudocritical_point_Sutton(sg, rg.make_nonhydrocarbon_properties(0.0, 0.0, 0.0), kind)
+
+        def f(q):
+            return 2 * q / (rg.viscosity_Sutton(T_, q, Tpc, ppc, sg) * rg.z_factor_DAK(T_, q, Tpc, ppc))
+        for p_ in (3000.0, 8000.0, 13990.0):
+            try:
+                got = float(rg.pseudopressure_Hussainy(T_, p_, Tpc, ppc, sg))
+                got_hi = float(rg.pseudopressure_Hussainy(T_, p_, Tpc, ppc, sg, 3000.0)) if p_ > 3000 else None
+                got_lo = float(rg.pseudopressure_Hussainy(T_, 3000.0, Tpc, ppc, sg))
+            except Exception as ex:  # noqa: BLE001
+                return True, {"what": f"pseudopressure_Hussainy raised {ex!r} at T={T_}, p={p_}, gravity {sg} {kind}", "inputs": {}}
+            edges = np.concatenate([np.arange(14.7, p_, 250.0), [p_]])
+            want = sum(_quad(f, a, b, epsabs=0, epsrel=1e-11, limit=200)[0] for a, b in zip(edges[:-1], edges[1:]))
+            if abs(got - want) > 1e-6 * abs(want):
+                problems.append(f"gravity {sg} {kind}, T={T_} F, p={p_}: pseudopressure_Hussainy = {got!r} vs the integral of 2p/(mu Z) from 14.7 psia = {want!r} "
+                                f"(relative difference {abs(got - want) / abs(want):.2e})")
+            if got_hi is not None and abs((got - got_hi) - got_lo) > 1e-6 * abs(got):
+                problems.append(f"gravity {sg} {kind}, T={T_} F: m(p={p_}) - m(p={p_}; from 3000) = {got - got_hi!r} vs m(3000) = {got_lo!r}: not additive through pressure_standard")
+    return bool(problems), {"what": "; ".join(problems[:2]) or "pseudopressure_Hussainy is the integral to 1e-6 on light and heavy gases", "inputs": {}}
+
+
 def job_hussainy(job):
     import bluebonnet.fluids.gas as _rg
     mu, z = _uf("viscosity_Sutton", like=_rg.viscosity_Sutton), _uf("z_factor_DAK", like=_rg.z_factor_DAK)
@@ -238,7 +268,7 @@ def job_builder(job, pmax):
 
 
 # concrete replays run on the real code when the changed code uses something the engine does not model (harness.finish)
-FALLBACK = [(replay_builder, {}), (replay_builder, {"dry": "wet gas"}), (replay_builder_vs_quad, {}), (replay_builder_vs_quad, {"dry": "wet gas"}), (replay_hussainy, {})]
+FALLBACK = [(replay_builder, {}), (replay_builder, {"dry": "wet gas"}), (replay_builder_vs_quad, {}), (replay_builder_vs_quad, {"dry": "wet gas"}), (replay_hussainy, {}), (replay_hussainy_value, {})]
 
 
 def jobs(tier):
